@@ -982,6 +982,10 @@ def build_cases(ctx):
 
 
 def run(ctx):
+    from .. import tie
+
+    # translation tie: Lean definitions regenerated from /repo's source + equality theorems with the model
+    ctx.tie = tie.run_tie(ctx, tie.FUNCTIONS["C19"])
     cases = build_cases(ctx)
     by_cid = {c["cid"]: c for c in cases}
     reqs = [model_request(c) for c in cases if not (c["what"] == "ham" and c["model"] == "heis")]
